@@ -68,8 +68,9 @@ def state():
     if _STATE.get("pid") != os.getpid():
         from nauyaca.security.pyopenssl_tls import create_pyopenssl_server_context
 
-        d = tempfile.mkdtemp(prefix="nv-")
-        atexit.register(shutil.rmtree, d, True)
+        from .. import core as _core
+
+        d = _core.mkdtemp("nv-fspump-")
         sc, sk, _ = _mk_cert("ec", d, "server")
         clients = {}
         # certificates 1..3: RSA / EC / Ed25519.  Certificates 4..6: look-alikes of 1..3 — self-signed with
